@@ -9,29 +9,41 @@ CLAIMED = {
  "C13": ("model_checking",
          "TLA+ spec Glob.tla (code-shaped matcher machine vs declarative language) model-checked with TLC; "
          "all TLC-exported cases replayed on policy.Like/FromIPLD; recorded random evaluations validated by TraceGlob.tla",
-         "TLC exhaustively checks, for every pattern and string over {a,b,*,\\} up to length 3 (quick) / 4 (thorough), that the "
+         "TLC exhaustively checks, for every pattern and string over {a,b,*,\\} up to length 4 (quick) / 5 (thorough) and over {a,*} up to 6/7 (8/9), that the "
          "code-shaped matcher machine equals membership in the declaratively defined pattern language and terminates; every "
          "exported (pattern,string,expected) case is executed on the real matcher through both the constructor and the IPLD "
-         "path, and thousands of longer random evaluations recorded from the real code are accepted or rejected by the same "
-         "declarative operator in a trace specification.",
+         "path, also against values of other kinds with the same content (bytes, list, map: never a match), and thousands of longer random "
+         "evaluations (overlap-heavy two-letter pairs, multi-byte runes, non-string values) recorded from the real code are accepted or "
+         "rejected by the same declarative operator in a trace specification.",
          "Trusts TLC, the transcription of the property into InLang/Tokens, and the harness' mapping of byte sequences to Go strings; "
          "beyond the exhaustive bounds coverage is by recorded random traces."),
 }
 
 _chain_note = ("Trusts TLC, the transcription of the rule sets from the property text, the harness' concretization (abstract "
                "principals -> real keys of mixed algorithms, abstract links -> real sealed delegations, relative clock) and the "
-               "policy catalogue (self-checked against the real matcher at every run). Chain length is bounded (<=2..4 exhaustively, "
-               "<=6 in recorded traces).")
+               "policy catalogue (its meaning is Policy.tla's: every (statement, argument point) is validated by TracePolicy.tla and "
+               "compared with the real matcher at every run). Chain length is bounded (<=2..4 exhaustively, <=20 in recorded traces, "
+               "<=8 symbolically for the principal/command rules). The real-time part of Session needs the machine to keep up "
+               "(guarded: otherwise the step is repeated with a longer unit or the check exits 2).")
 def _chain(pid, what):
     return ("model_checking",
             "TLA+ spec Chain.tla (validation machine shaped like ExecutionAllowed vs declarative rule sets) model-checked with TLC; "
             "every exported (invocation, proof list, instant) replayed on the real ExecutionAllowed with real keys/sealed tokens; "
-            "recorded validations of random stores and of the repository's fixture store validated by TraceChain.tla",
+            "recorded validations of random stores and of the repository's fixture store validated by TraceChain.tla; Session.tla (the same "
+            "token objects checked repeatedly: other instants in real time, other hooks, other loaders), Window.tla (one token's window at "
+            "quarter-second resolution and at the far ends of the time line), Authority.tla / Ucan.tla (system level and end-to-end story "
+            "through real containers with an adversary on the wire) model-checked and replayed likewise; thorough: the loop invariant of "
+            "verifyProofs discharged by Apalache (ChainInd.tla)",
             "TLC exhaustively explores the bounded product this property quantifies over (" + what + ") on a machine that steps like "
             "loadProofs/verifyProofs/verifyTimeBound/verifyArgs and checks it against the declarative rules (Agree, Sound*, Complete, "
             "audience irrelevance, monotonicity). Every terminal state is exported with the expected decision and executed against the "
-            "real API (plain loaders, unsealed tokens and container.Reader loaders; sealed/unsealed invocations); recorded traces of "
-            "thousands of random and fixture-based real validations are accepted or rejected by the same rule operators.",
+            "real API (plain loaders, unsealed tokens and container.Reader loaders; sealed/unsealed invocations; both ExecutionAllowed and "
+            "ExecutionAllowedWithArgsHook); recorded traces of thousands of random and fixture-based real validations (chains up to 20 links) "
+            "are accepted or rejected by the same rule operators. Histories: Session.tla requires every check of a token to return what a "
+            "fresh token would return (Historyless) and its behaviours are replayed on the SAME real token objects while real time passes "
+            "(the harness sleeps across the bounds), with hook and loader sequences; Window.tla decides IsValidAt next to each bound "
+            "(1 ns .. 1 s) incl. bounds beyond the int64 nanosecond range; the policy catalogue that stands for acceptance sets is judged "
+            "by TracePolicy.tla.",
             _chain_note)
 CLAIMED.update({
  "C01": _chain("C01", "all principal assignments of invocation and links incl. Undef subjects and missing delegations, lengths 0..2 quick / 0..3 thorough"),
@@ -46,8 +58,9 @@ CLAIMED.update({
    "TLA+ spec Policy.tla (matchStatement-shaped evaluation vs order-free four-valued and classical evaluation, selectors parsed and "
    "resolved by Selector.tla, like by GlobOps.tla) model-checked with TLC for laws L1..L6; every (statement, datum) replayed on "
    "policy.Match/PartialMatch; L2-L5 re-checked metamorphically on real results; recorded random evaluations validated by TracePolicy.tla",
-   "TLC checks on the whole bounded universe (all comparison/like leaves over 9 selectors and 8-11 literals, and/or of up to 2-3 "
-   "operands, all/any, nested statements; 48-500 data) that the code-shaped left-to-right evaluation equals the order-free reading "
+   "TLC checks on the whole bounded universe (all comparison/like leaves over 9 selectors and 12-16 literals incl. the safe-integer "
+   "bounds, and/or of up to 2-3 operands, all/any incl. inner selectors that yield both kinds of missing data, nested statements; "
+   "150-900 data incl. null, bytes, fractional floats) that the code-shaped left-to-right evaluation equals the order-free reading "
    "and that L1 (classical reading when everything resolves), L2 (order independence), L3 (monotone and/all), L4, L5, L6 hold; every "
    "pair is executed on the real matcher through FromIPLD and through the constructors, and the order/monotonicity/concatenation laws "
    "are re-checked on the real results themselves so the verdict does not depend on the model's choice for nested missing data.",
@@ -76,12 +89,13 @@ CLAIMED.update({
  "C15": ("model_checking",
    "TLA+ spec Command.tla/CommandOps.tla (Parse/Covers/Join machines vs segment-prefix order) model-checked with TLC incl. the order "
    "axioms over all valid commands; every text, pair and join replayed on pkg/command; recorded random Unicode commands validated by TraceCommand.tla",
-   "TLC checks for every text over {/,a,b,A} up to length 5 (7 thorough) that Parse accepts exactly the valid ones, for every pair of "
+   "TLC checks for every text over {/,a,b,A,space} up to length 5 (7 thorough) that Parse accepts exactly the valid ones, for every pair of "
    "valid commands up to length 5 (6) that the HasPrefix+boundary fast path equals the segment-prefix order, reflexivity, antisymmetry, "
    "transitivity (all triples) and top, and Join/Segments; all cases are executed on the real package and random Unicode commands are "
-   "judged by the declarative operators in a trace spec.",
+   "judged by the declarative operators in a trace spec; thorough: the order axioms proved for sequences of any length with TLAPS "
+   "(spec/proofs/CoversOrder.tla).",
    "Trusts TLC and the harness; upper case is modelled by one representative letter in the exhaustive part and by per-rune flags "
-   "computed with unicode.ToLower in traces; title-case letters and invalid UTF-8 are not generated."),
+   "(Unicode Uppercase property: category Lu or Other_Uppercase) in traces; title-case letters and invalid UTF-8 are not generated."),
 })
 
 _env_note = ("Symbolic cryptography: unforgeability of the real signature schemes is assumed; the adversary model is the listed action "
@@ -97,12 +111,16 @@ CLAIMED.update({
    "after an honest seal of a delegation and an invocation, and checks that the code-shaped decode pipeline accepts only genuinely "
    "signed, faithfully decoded content. Each behaviour is materialized as a hand-built envelope with real signatures and given to all "
    "generic and typed decoders (DAG-CBOR, DAG-JSON, readers, FromIPLD); a returned token must be one its issuer signed, field by field. "
-   "Thorough additionally flips every bit and inserts/deletes/substitutes/truncates at every offset of 10 sealed tokens.",
+   "Signature edits (empty, truncated, garbage, zeros, small DER pair, well-formed raw r||s) are replayed with an honest issuer of each of "
+   "the six key algorithms; time bounds 0 and -1 must decode faithfully; the end-to-end story of Ucan.tla (adversary on the wire of a "
+   "container) is replayed as well. Thorough additionally flips every bit and inserts/deletes/substitutes/truncates at every offset of 10 sealed tokens.",
    _env_note),
  "C10": ("model_checking",
    "TLA+ specs Envelope.tla (OnlyWellFormed over payload field classes, tags, entry shapes, decoder types) and Token.tla "
-   "(ConstructorsWellFormed, AddOutcome) model-checked with TLC; behaviours replayed on real decoders and constructors; Go numeric "
-   "values at their boundaries recorded and validated by TraceToken.tla",
+   "(ConstructorsWellFormed, AddOutcome) and Life.tla (constructors with option sequences) model-checked with TLC; behaviours replayed "
+   "on real decoders and constructors (classes with several concrete representatives - invalid commands incl. upper case by the Unicode "
+   "Uppercase property, invalid DIDs, short nonces, malformed policies - once per representative); Go numeric values at their "
+   "boundaries recorded and validated by TraceToken.tla",
    "TLC checks that only well-formed payloads of the requested type pass the decode pipeline for every field x class (absent, null, "
    "wrong kind, invalid syntax, short/empty nonce, 2^53, -2^53, 2^64-5, unknown field) x tag x extra entry x decoder, correctly "
    "re-signed by the adversary, and that constructors only return tokens with defined required principals and a nonce >= 12 bytes for "
@@ -111,12 +129,16 @@ CLAIMED.update({
    "exactly or rejected.",
    _env_note),
  "C07": ("model_checking",
-   "TLA+ spec Token.tla (construct -> seal -> unseal -> compare over option sets x value classes x algorithm x codec x decoder) "
-   "model-checked with TLC; every case replayed with real keys of all six generatable algorithms, both codecs and both decoders",
+   "TLA+ specs Token.tla (construct -> seal -> unseal -> compare over option sets x value classes x algorithm x codec x decoder) and "
+   "Life.tla (the token life cycle as a machine: options applied in order, validate, seal, another token sealed in between, unseal) "
+   "model-checked with TLC; every case / behaviour replayed with real keys of all six generatable algorithms, both codecs and both decoders",
    "TLC enumerates every subset of options of both token types combined with one special value class (13 argument/metadata value "
    "classes, extreme time bounds, nonce lengths, undefined principals) and 2 of 24 (quick) or all 24 (thorough) combinations of key "
    "algorithm, codec and decoder; each case is built with the real constructors, sealed with a real key, unsealed with the generic and "
-   "the typed decoder and compared field by field at whole-second resolution.",
+   "the typed decoder and compared field by field at whole-second resolution. Life.tla adds every sequence of <= 2 (3 thorough) options "
+   "with parameter classes (audience = subject / issuer / other / undefined, repeated and merged arguments, duplicate keys, nonce "
+   "lengths, sub-second / far / epoch bounds, Root overriding WithSubject), the model's field record compared with the real accessors, "
+   "and the bytes of the first seal kept while another token is sealed before they are unsealed.",
    "Value classes are sampled by a few concrete values each (seed-dependent), not all values; NaN/Inf excluded by the statement. Two "
    "known findings are reported as KNOWN-FINDING lines (integral floats through DAG-JSON, top-level null values)."),
  "C16": ("model_checking",
@@ -139,7 +161,10 @@ CLAIMED.update({
    "readCar/readBlock/addToken and FromCborReader. Each behaviour is executed with real delegations and invocations of mixed key "
    "algorithms: the real writer output is parsed, damaged at the byte level as the abstract action says (e.g. data modified and block "
    "CID recomputed so that only signature verification can notice) and read with the real reader: undamaged/benign must give exactly "
-   "the tokens added under their true CIDs, harmful damage must give an error.",
+   "the tokens added under their true CIDs (also through GetAllDelegations / GetAllInvocations / GetInvocation), harmful damage - incl. "
+   "blocks labelled with identity-multihash or other-hash CIDs that do not hash to the data, base64 damage exactly at an entry boundary - "
+   "must give an error, and bytes returned by a writer must not change when another container is serialized afterwards; the end-to-end "
+   "story of Ucan.tla is replayed as well.",
    "Trusts TLC and the harness' CAR/CBOR surgery; one representative byte position per damage class (all positions are covered for "
    "single tokens by C06 and for streams by C18)."),
  "C18": ("model_checking",
@@ -150,7 +175,10 @@ CLAIMED.update({
    "start of or inside every unit and after the last byte, both read shapes) never yields anything but an error - except the CAR cut "
    "between blocks - and that every failed underlying write including the base64 flush surfaces. The replay runs each behaviour on "
    "the real streaming APIs with 3 chunkings; the recorder then injects a fault at ~60 (quick) or every (thorough) byte offset and at "
-   "every underlying write of 6-9 artefacts x 3 paddings, and TLC accepts or rejects each recorded outcome with the same operator.",
+   "every underlying write of 10-13 artefacts x 3 paddings (sealed, DAG-CBOR and DAG-JSON streaming encoders / decoders of single "
+   "tokens, generic and typed, next to the containers), and TLC accepts or rejects each recorded outcome with the same operator; two "
+   "stream reads are also interleaved deterministically (a gated reader stalls the first at structural positions while the second is "
+   "read completely): each must give what it gives alone.",
    "Trusts TLC, the harness' fault-injecting reader/writer and its classification of offsets into unit boundaries; signatures may "
    "be randomized, so stream-vs-buffer byte equality is required only for deterministic schemes (CID = content address is always required)."),
 })
@@ -161,7 +189,8 @@ CLAIMED.update({
    "TLC; replayed with a hand-computed CID and a stand-alone CBOR transcoder applying each feature at every applicable item of real sealed tokens",
    "TLC checks that every API reports the CID of the bytes and that an accepted artefact uses none of 8 non-canonical feature kinds at 6 "
    "position classes (1 feature quick, 2 thorough). The replay compares ToSealed / ToSealedWriter / FromSealed / FromSealedReader "
-   "(generic, typed, data-with-EOF and 1-byte readers) and container keys with CIDv1(dag-cbor, sha2-256) computed by hand for tokens "
+   "(generic, typed; 5 kinds of writers and 8 kinds of readers: write-only, string writers, bufio, pipes, one-byte, data-with-EOF ...; "
+   "repeated seals of the same token) and container keys (also of CARs whose sections carry foreign but valid CIDs) with CIDv1(dag-cbor, sha2-256) computed by hand for tokens "
    "of five key algorithms, and re-encodes each token with every feature at every applicable item; accepted re-encodings are reported "
    "under the known findings LenientCbor / EcdsaMalleable, anything else is a violation.",
    "The canonicity clause does not hold on this tree (two known findings, see known_findings.json); the check keeps reporting any "
@@ -170,19 +199,23 @@ CLAIMED.update({
    "every entry point for untrusted data driven with structured hostile inputs behind valid signatures, hostile container/CBOR/JSON "
    "structures and random/mutated inputs under recover + deadline + allocation measurement; each recorded call validated by TraceTotal.tla "
    "(the observable side of the totality of the decode operators of the TLA+ suite)",
-   "Sampling, not proof: ~3 000 (quick) to ~250 000 (thorough) real calls of 16 entry points. What the specification contributes is the "
+   "Sampling, not proof: ~4 000 (quick) to ~250 000 (thorough) real calls of 17 entry points. What the specification contributes is the "
    "structured part - malformed payloads that are correctly signed and therefore reach the code behind the signature check (classes "
-   "taken from Envelope.tla / Did.tla plus depth, length and magnitude extremes) - and the acceptance rule (only value/error, allocation "
-   "<= 128 MiB + 4 KiB per input byte) evaluated by TLC on every recorded call.",
+   "taken from Envelope.tla / Did.tla plus depth, length and magnitude extremes; key material cut to every length for every codec; "
+   "adversarial (policy, data) pairs of growing size so that super-linear time or memory shows; CAR section lengths up to 2^64-1; "
+   "selectors with escapes) - and the acceptance rule (only value/error, allocation <= 8 MiB (48 MiB for container readers) + 1 KiB "
+   "per input byte) evaluated by TLC on every recorded call.",
    "Termination is a 20 s deadline per call; memory is cumulative allocation (an upper bound of peak use) measured with runtime.ReadMemStats; "
    "random inputs are plain sampling."),
  "C19": ("model_checking",
    "TLA+ spec Meta.tla (symbolic secretbox: Add -> seal/unseal -> Tamper -> Get) model-checked with TLC for RoundTrip / Authentic / "
    "KeyRefusal / Fresh; every behaviour replayed with the real secretbox through Meta and both token types; every bit of stored "
    "ciphertexts flipped and validated by TraceMeta.tla",
-   "TLC enumerates carrier x API x plaintext class x 9 key classes for adding x seal/unseal x 6 tamper regions x 9 key classes for "
-   "reading (18 630 behaviours); each is executed on the real code, with confidentiality (no plaintext in the stored value or the sealed "
-   "token) and freshness checked on real bytes; thorough flips every bit of four ciphertexts.",
+   "TLC enumerates carrier (Meta, its ReadOnly view, delegation, invocation) x API x plaintext class x 10 key classes for adding (incl. "
+   "one-hot keys, refined to every position of the non-zero byte) x seal/unseal x 6 tamper regions x 10 key classes for reading x a "
+   "second read through the SAME view with each key class (34 800 behaviours); each is executed on the real code, with confidentiality "
+   "(no plaintext in the stored value or the sealed token), freshness (also of one option value applied to two tokens) and stability of "
+   "returned plaintext under later reads checked on real bytes; thorough flips every bit of four ciphertexts.",
    "Cipher strength is assumed (symbolic model); confidentiality is a substring check for plaintexts of >= 8 bytes."),
  "C20": ("model_checking",
    "PlusCal/TLA+ spec Immutable.tla (read-only processes over the shared key slice, all interleavings) model-checked with TLC for the "
@@ -190,8 +223,9 @@ CLAIMED.update({
    "sequence (TraceImmutable.tla) and by the Go race detector on concurrent mixes",
    "TLC explores every interleaving of 2-3 processes (Iter, ToIPLD/String) on 3-4 keys in several insertion orders: no step changes "
    "the shared slice and a completed iteration yields the insertion order; with the SortInPlace deviation it exhibits the violation. "
-   "On the real code, for every insertion order x constructed/decoded tokens x every sequence of <= 2 of 15 read-only operations the "
-   "deep snapshot (incl. iteration order) must be unchanged and results equal to the run-alone results, and 8 goroutines x 6 random "
+   "Session.tla adds the history view (the verdict of a check depends on invocation, hook, loader and instant only). "
+   "On the real code, for every insertion order x constructed/decoded tokens x every sequence of <= 2 of 26 read-only operations the "
+   "deep snapshot (incl. iteration order, time bounds at nanosecond resolution, policies sharing a backing array) must be unchanged and results equal to the run-alone results, and 8 goroutines x 6 random "
    "operations on shared tokens run under `go build -race` (30 rounds quick, 400 thorough).",
    "Real schedules are sampled by the race detector, exhaustive only in the model; no scheduling hooks are used."),
 })
